@@ -5,6 +5,7 @@ import Proofs.Lemmas.AutogradSemantic
 import Proofs.Lemmas.AutogradGrad
 import Proofs.Lemmas.AutogradBatch
 import Proofs.Lemmas.AutogradExamples
+import Proofs.Lemmas.AutogradRoot
 import Proofs.Lemmas.AutogradSim3Trunc
 import Proofs.Lemmas.AutogradLocalSO3a
 import Proofs.Lemmas.AutogradLocalSO3b
@@ -44,8 +45,9 @@ Clauses of the property and where they are proved
    model selects the Taylor branches there (`Taylor_branch_selected_at_zero`); §7 that these maps are the true derivatives.
 5. *sim3 truncation* — §6: distance of `sim3_Jl` / `sim3_Jl_inv` from the exact left-Jacobian series `≤ C·‖ad ξ‖⁶` for `‖ad ξ‖ ≤ 1`
    (`_partial`: the link series = derivative of the coded `sim3_Exp` is not proved).
-6. *Not covered by any single theorem*: group-valued roots (`.grad` = derivative read through the chart: only the pieces
-   `chart_reads_tangent`, `chart_in_regime`, `program_tangent_exact_*`), the SE3 `calcQ` series branch `eps < θ ≤ 0.05`, float rounding.
+6. *Group-valued roots* — §7 `group_root_gradient_exact_algebraic` (full strength), `group_root_gradient_exact_partial`: `.grad` for the
+   storage cotangent `(c,0)` is the derivative of `⟨c, Log(Y(t)·Y(0)⁻¹)⟩`.
+7. *Not covered by any theorem*: the SE3 `calcQ` series branch `eps < θ ≤ 0.05`, the Taylor branches at `0 < θ ≤ eps`, float rounding.
 -/
 namespace PP.AD
 open PP
@@ -848,6 +850,52 @@ theorem vector_leaf_gradient_exact_partial (dJ : DJ ℝ) (hdJ : DJShape dJ) (eps
     HasDerivAt (fun t => DVec.dot c (eval eps (curveEnv env0 i (fun s => DVec.add (env0.getD i []) (DVec.smul s d)) t) p))
       (DVec.dot (grad m i (backprop dJ eps env0 p c)) d) 0 :=
   vleaf_gradient_exact dJ hdJ eps heps lt env0 hP i m hi d hd p hR n hty c hc
+
+/-- **group-valued roots, algebraic programs — full strength** (pass 7).  For every well-typed program `p` over
+`{Inv, @, Act, Act4, Adj, AdjT, matrix()}` whose VALUE is an element of the group `g'`, every valid point, every group leaf `i`,
+direction `τ` and `c ∈ ℝ^{adim g'}`:
+
+  `d/dt ⟨c, Log(p(…, Exp(t·τ) @ Xᵢ, …) · p(…, Xᵢ, …)⁻¹)⟩ |_{t=0} = ⟨gradᵢ, τ⟩`,
+
+`gradᵢ` = what the reverse sweep started with the storage cotangent `(c, 0)` accumulates in `.grad` of leaf `i`: the Jacobian of a
+group-valued program, read in the left-perturbation chart of its output, is what autograd delivers; the last storage slot of the
+cotangent plays no role. -/
+theorem group_root_gradient_exact_algebraic (dJ : DJ ℝ) (hdJ : DJShape dJ) (eps : ℝ) (heps : 0 < eps) (lt : List Ty) (env0 : List (DVec ℝ))
+    (hP : PointOK lt env0) (i : Nat) (g : Grp) (hi : lt[i]? = some (.G g)) (τ : DVec ℝ) (hτ : τ.length = g.adim)
+    (p : Prog) (hp : p.algebraic = true) (g' : Grp) (hty : tyOf lt p = some (.G g')) (c : DVec ℝ) (hc : c.length = g'.adim) :
+    HasDerivAt (fun t => DVec.dot c (chartF g' eps (eval eps env0 p)
+        (eval eps (curveEnv env0 i (fun s => retrF g eps (env0.getD i []) (DVec.smul s τ)) t) p)))
+      (DVec.dot (grad g.gdim i (backprop dJ eps env0 p (pad0 c))) τ) 0 :=
+  group_root_leaf_gradient_exact dJ hdJ eps heps lt env0 hP i g hi τ hτ p (regimes_of_algebraic dJ eps env0 p hp) g' hty c hc
+
+/-- the same for every group-valued program whose transcendental nodes are evaluated in proved regimes, leaf `i` of any type moving along
+any valid curve (`_partial` for the reasons of `gradient_exact_regimes_partial`) -/
+theorem group_root_gradient_exact_partial (dJ : DJ ℝ) (hdJ : DJShape dJ) (eps : ℝ) (heps : 0 < eps) (lt : List Ty) (env0 : List (DVec ℝ))
+    (hP : PointOK lt env0) (i : Nat) (ti : Ty) (hi : lt[i]? = some ti) (γ : ℝ → DVec ℝ) (τ : DVec ℝ)
+    (hγ : CurveOK ti γ τ) (hγ0 : γ 0 = env0.getD i []) (hτ : τ.length = ti.tdim)
+    (p : Prog) (hR : Regimes dJ eps env0 p) (g' : Grp) (hty : tyOf lt p = some (.G g')) (c : DVec ℝ) (hc : c.length = g'.adim) :
+    HasDerivAt (fun t => DVec.dot c (chartF g' eps (eval eps env0 p) (eval eps (curveEnv env0 i γ t) p)))
+      (DVec.dot (grad ti.dim i (backprop dJ eps env0 p (pad0 c))) τ) 0 :=
+  group_root_curve_gradient_exact dJ hdJ eps heps lt env0 hP i ti hi γ τ hγ hγ0 hτ p hR g' hty c hc
+
+/-- non-vacuity: the group-valued algebraic program `X⁻¹ @ Y` on `SE3` at `X = (1,-1,2; 0.6,0,0,0.8)`, `Y = (0,0,1; 0,0,0,1)` -/
+example : PointOK [.G .SE3, .G .SE3] [[1, -1, 2, 0.6, 0, 0, 0.8], [0, 0, 1, 0, 0, 0, 1]] ∧
+    (Prog.bin .Mul .SE3 (.un .Inv .SE3 (.leaf 0)) (.leaf 1)).algebraic = true ∧
+    tyOf [.G .SE3, .G .SE3] (.bin .Mul .SE3 (.un .Inv .SE3 (.leaf 0)) (.leaf 1)) = some (.G .SE3) := by
+  refine ⟨⟨rfl, ?_⟩, by decide, by decide⟩
+  intro j t hj
+  match j, hj with
+  | 0, hj =>
+    simp at hj; subst hj
+    refine ⟨rfl, fun g hg => ?_⟩
+    cases hg
+    exact ⟨by simp [UnitQ, qt, Quat.normSq]; norm_num, trivial⟩
+  | 1, hj =>
+    simp at hj; subst hj
+    refine ⟨rfl, fun g hg => ?_⟩
+    cases hg
+    exact ⟨by simp [UnitQ, qt, Quat.normSq], trivial⟩
+  | (k+2), hj => simp at hj
 
 /-- **the reverse sweep is per leaf** (class 37, model side): `.grad` of leaf `i` is the same whichever set `S ∋ i` of leaves is
 differentiated — the contributions addressed to leaves outside `S` (operands with `requires_grad = False`, constants) are simply not
